@@ -515,15 +515,158 @@ impl Names {
     self.fresh
   }
 }
+// ---- single faults (C06): a position that must hold an int (an operand of + - * % < <=, an argument of a function or a
+// constructor) or a bool (a condition, an operand of && || !) can be given something that is not one; whatever the fault
+// is, the program is ill-typed or ill-formed there and must be rejected
+#[derive(Default)]
+struct FaultState {
+  /// (site, which fault) to plant while the text is written
+  target: Option<(usize, usize)>,
+  seen: usize,
+  planted: Option<String>,
+}
+thread_local! {
+  static FAULT: std::cell::RefCell<FaultState> = std::cell::RefCell::new(FaultState::default());
+}
+/// faults for a position that must hold an int; `{}` is the well-typed text of the position
+const INT_FAULTS: [(&str, &str); 42] = [
+  ("a bool where an int is required", "true"),
+  ("a string where an int is required", "\"s\""),
+  ("an enum value where an int is required", "Color.Red()"),
+  ("an object where an int is required", "Pair.init({}, 1)"),
+  ("a function value where an int is required", "Main.adder({})"),
+  ("a lambda where an int is required", "((y9: int) -> {})"),
+  ("an unbound variable", "zz9"),
+  ("an unknown function of a known class", "Main.nope({})"),
+  ("an unknown class", "Missing9.make({})"),
+  ("a call with too few arguments", "Main.p({})"),
+  ("a call with too many arguments", "Main.p(1, {}, 2)"),
+  ("an argument of the wrong type", "Main.p(true, {})"),
+  ("an unknown field", "Pair.init({}, 1).c"),
+  ("an unknown method", "Pair.init({}, 1).missing()"),
+  ("a method called with too few arguments", "Pair.init({}, 1).plus()"),
+  ("an else-if branch of another type", "(if false { 0 } else if true { true } else { {} })"),
+  ("a match without the arm of a payload variant", "(match Color.Red() { Red -> {}, Green -> 0 })"),
+  ("a match without the arm of a tag-only variant", "(match Opt.Some({}) { Some(v9) -> v9 })"),
+  ("a match with an arm of an unknown variant", "(match Color.Red() { Red -> {}, Green -> 0, Rgb(r9, s9) -> r9, Blue -> 1 })"),
+  ("a variant pattern with too many bindings", "(match Color.Rgb({}, 1) { Red -> 0, Green -> 0, Rgb(r9, s9, t9) -> r9 })"),
+  ("an unknown class in a parameter annotation", "{ let g9 = (y9: Missing9) -> 1; {} }"),
+  ("a tuple pattern on an int", "{ let (a9, b9) = {}; a9 }"),
+  ("an object pattern naming an unknown field", "{ let { a as a9, c as c9 } = Pair.init({}, 1); a9 }"),
+  ("a call of something that is not a function", "{ let n9 = {}; n9(1) }"),
+  ("an else-if branch of another type, nothing expected", "{ let q9 = (if false { 0 } else if true { true } else { {} }); 1 }"),
+  ("if-else branches of different types, nothing expected", "{ let q9 = (if false { \"s\" } else { {} }); 1 }"),
+  ("match arms of different types, nothing expected", "{ let q9 = (match Color.Red() { Red -> {}, Green -> true, Rgb(r9, s9) -> 0 }); 1 }"),
+  ("a literal beyond the 32-bit range", "({} + 2147483648)"),
+  ("a literal beyond the 32-bit range", "({} + 4294967296)"),
+  ("a negative literal beyond the 32-bit range", "({} + -2147483649)"),
+  ("a literal beyond the 64-bit range", "({} + 99999999999999999999)"),
+  ("a pattern variable of if-let used in the else branch", "(if let Some(v9) = Opt.Some({}) { v9 } else { v9 })"),
+  ("an unknown class as an explicit type argument", "(match Opt.None<Missing9>() { None -> {}, Some(v9) -> 0 })"),
+  ("an unknown class as the result of a function type annotation", "{ let g9 = (f9: (int) -> Missing9) -> 1; {} }"),
+  ("too many type arguments", "(match Opt.None<int, int>() { None -> {}, Some(v9) -> 0 })"),
+  ("a value that does not satisfy the bound of a type parameter", "Sorter9.first(Pair.init({}, 1), Pair.init(1, 2))"),
+  ("class objects where instances that satisfy a bound are required", "{ let n9 = {}; Sorter9.first(Boxed9, Boxed9) }"),
+  ("a private function of a class of another module", "({} + Helper9.hid9())"),
+  ("a private method of a class of another module that has the name of this class", "({} + Factory9.get9().secret9())"),
+  ("a private field read outside its class", "({} + Secret9.make9().hidden)"),
+  ("an else-if chain of another type than the first branch", "(if false { {} } else if true { \"a\" } else { \"b\" })"),
+  ("a generic function used as a value at a type that violates its bound", "{ let h9: (Pair, Pair) -> int = Sorter9.first; {} }"),
+];
+/// a module of its own that only declares an interface and imports nothing, naming an unknown class
+const INTERFACE_ONLY_MODULE: &str = "interface Lonely9 { method m(): Missing9 }\n";
+/// declarations that are ill-formed on their own: appended to an accepted program
+const DECL_FAULTS: [(&str, &str); 18] = [
+  ("an unbounded type parameter passed where a bound is required", "class Bad9 { function <T> pass(a: T, b: T): int = Sorter9.first(a, b) }"),
+  ("a class that does not implement a method of its interface", "class Bad9 : Cmp9<Bad9> { }"),
+  ("a method whose signature differs from the interface's", "class Bad9 : Cmp9<Bad9> { method cmp(other: int): int = 0 }"),
+  ("an interface that names an unknown class", "interface Bad9 { method m(): Missing9 }"),
+  ("an interface that extends another with too many type arguments", "interface Bad9 : Cmp9<int, int> { }"),
+  ("an interface that extends an unknown interface", "interface Bad9 : Missing9 { }"),
+  ("a function whose body has another type than declared", "class Bad9 { function f(x: int): bool = x }"),
+  ("a function that returns a value of a type parameter's type from a literal", "class Bad9<T> { function <T> f(): T = 1 }"),
+  ("two members of the same name", "class Bad9 { function f(): int = 1 function f(): int = 2 }"),
+  ("two variants of the same name", "class Bad9(A9(int), A9(bool)) { }"),
+  ("a local that takes the name of another", "class Bad9 { function f(): int = { let x9 = 1; let x9 = 2; x9 } }"),
+  ("a private function used from another class", "class Bad9 { private function hid(): int = 1 } class Use9 { function g(): int = Bad9.hid() }"),
+  ("a class of a name that is already taken", "class Pair(val z: int) { }"),
+  ("an object pattern with a refutable sub-pattern in front of another field", "class Item9(val tag: Opt<int>, val weight: int) { function total(item: Item9): int = { let { tag as Some(n9), weight } = item; n9 + weight } }"),
+  ("an object pattern with a refutable sub-pattern behind another field", "class Item9(val tag: Opt<int>, val weight: int) { function total(item: Item9): int = { let { weight, tag as Some(n9) } = item; n9 + weight } }"),
+  ("a match over object patterns, fields in different orders, that leaves a case out", "class Range9(val lo: Opt<int>, val hi: Opt<int>) { function bound(r: Range9): int = match r { { lo as Some(a9), hi as _ } -> a9, { hi as None, lo as _ } -> 0 } }"),
+  ("a match over tuples that leaves a case out", "class Bad9 { function f(a: Opt<int>, b: Color): int = match (a, b) { (Some(x9), _) -> x9, (None, Red) -> 0, (None, Green) -> 1 } }"),
+  ("a member of a generic interface inherited at two instantiations, implemented at one", "interface Source9<T> { method get(): T } interface Counter9 : Source9<int> { method bump(): int } interface Meter9 : Source9<Str> { method label(): Str } class Gauge9(val v: int) : Counter9, Meter9 { method get(): int = this.v method bump(): int = this.v + 1 method label(): Str = \"kg\" }"),
+];
+/// faults the pinned tree is known to accept (known_findings.json): reported apart from the verdict, as PINNED-FINDING lines
+const PINNED_DECL_FAULTS: [(&str, &str, &str); 1] = [(
+  "a_type_parameter_given_type_arguments",
+  "a type parameter used with type arguments, which it does not take",
+  "class Bad9 { function <T> f(a: T<int>): int = 1 }",
+)];
+/// import lines that are wrong on their own: put in front of an accepted program
+const IMPORT_FAULTS: [(&str, &str); 4] = [
+  ("an import of a class the module does not have", "import { Missing9 } from Lib;"),
+  ("an import from a module that does not exist", "import { Helper9 } from Nowhere9;"),
+  ("a second import line from the same module naming a class it does not have", "import { Secret9 } from Lib;\nimport { Missing9 } from Lib;"),
+  ("an import of a private class", "import { Hidden9 } from Lib;"),
+];
+/// the other module of every program of the rejection search
+const LIB_MODULE: &str = "class Helper9 {\n  function pub9(): int = 1\n  private function hid9(): int = 2\n}\nclass Main(val k: int) {\n  private method secret9(): int = this.k\n  function make9(): Main = Main.init(7)\n}\nclass Factory9 {\n  function get9(): Main = Main.make9()\n}\nclass Secret9(private val hidden: int) {\n  function make9(): Secret9 = Secret9.init(3)\n}\nprivate class Hidden9 {\n  function f(): int = 1\n}\n";
+/// what the rejection search puts in front of / behind the generated program (all well-formed)
+const REJECTS_IMPORTS: &str = "import { Helper9, Factory9, Secret9 } from Lib;\n";
+const REJECTS_DECLARATIONS: &str = "interface Cmp9<T> { method cmp(other: T): int }\nclass Boxed9(val v: int) : Cmp9<Boxed9> {\n  method cmp(other: Boxed9): int = this.v - other.v\n}\nclass Sorter9 {\n  function <C: Cmp9<C>> first(a: C, b: C): int = a.cmp(b)\n  function use9(): int = Sorter9.first(Boxed9.init(1), Boxed9.init(2)) + Helper9.pub9() + Factory9.get9().k\n}\n";
+const BOOL_FAULTS: [(&str, &str); 5] = [
+  ("an int where a bool is required", "1"),
+  ("a string where a bool is required", "\"s\""),
+  ("an unbound variable", "zz9"),
+  ("a comparison of an int with a bool", "(1 == ({}))"),
+  ("an ordering of bools", "(({}) < true)"),
+];
+fn site(text: String, faults: &[(&str, &str)]) -> String {
+  FAULT.with(|f| {
+    let mut f = f.borrow_mut();
+    let k = f.seen;
+    f.seen += 1;
+    match f.target {
+      Some((at, which)) if at == k => {
+        let (what, template) = faults[which % faults.len()];
+        f.planted = Some(format!("{what}: `{}`", template.replace("{}", "..")));
+        template.replace("{}", &text)
+      }
+      _ => text,
+    }
+  })
+}
+fn strict_int(e: &I, n: &mut Names) -> String {
+  let text = int_text(e, n);
+  site(text, &INT_FAULTS)
+}
+fn strict_bool(e: &B, n: &mut Names) -> String {
+  let text = bool_text(e, n);
+  site(text, &BOOL_FAULTS)
+}
+/// the number of fault sites of a program
+fn count_sites(p: &Program) -> usize {
+  FAULT.with(|f| *f.borrow_mut() = FaultState::default());
+  let _ = program_text(p);
+  FAULT.with(|f| std::mem::take(&mut *f.borrow_mut()).seen)
+}
+/// the program with one fault planted, and what the fault is
+fn program_text_with_fault(p: &Program, at: usize, which: usize) -> (String, String) {
+  FAULT.with(|f| *f.borrow_mut() = FaultState { target: Some((at, which)), seen: 0, planted: None });
+  let text = program_text(p);
+  let state = FAULT.with(|f| std::mem::take(&mut *f.borrow_mut()));
+  (text, state.planted.expect("the site exists"))
+}
+
 fn int_text(e: &I, n: &mut Names) -> String {
   match e {
     I::Lit(k) => if *k < 0 { format!("(0 - {})", -k) } else { k.to_string() },
     I::Dyn(k) => format!("\"{k}\".toInt()"),
     I::Var(v) => n.ints[*v].clone(),
-    I::Add(a, b) => format!("({} + {})", int_text(a, n), int_text(b, n)),
-    I::Sub(a, b) => format!("({} - {})", int_text(a, n), int_text(b, n)),
-    I::Mul(a, b) => format!("({} * {})", int_text(a, n), int_text(b, n)),
-    I::If(c, t, f) => format!("(if {} {{ {} }} else {{ {} }})", bool_text(c, n), int_text(t, n), int_text(f, n)),
+    I::Add(a, b) => format!("({} + {})", strict_int(a, n), strict_int(b, n)),
+    I::Sub(a, b) => format!("({} - {})", strict_int(a, n), strict_int(b, n)),
+    I::Mul(a, b) => format!("({} * {})", strict_int(a, n), strict_int(b, n)),
+    I::If(c, t, f) => format!("(if {} {{ {} }} else {{ {} }})", strict_bool(c, n), int_text(t, n), int_text(f, n)),
     I::Let(v, body) => {
       let value = int_text(v, n);
       let name = format!("x{}", n.fresh());
@@ -533,10 +676,10 @@ fn int_text(e: &I, n: &mut Names) -> String {
       format!("{{ let {name} = {value}; {inner} }}")
     }
     I::Seq(a, b) => format!("{{ let _ = {}; {} }}", int_text(a, n), int_text(b, n)),
-    I::P(l, v) => format!("Main.p({l}, {})", int_text(v, n)),
-    I::Call(f, args) => format!("Main.f{f}({})", args.iter().map(|a| int_text(a, n)).collect::<Vec<_>>().join(", ")),
-    I::Loop(k, bound, acc) => format!("Main.loop{k}(0, {}, {})", int_text(bound, n), int_text(acc, n)),
-    I::Rec(k, count, a, b) => format!("Main.rec{k}((0 - {}), {}, {})", int_text(count, n), int_text(a, n), int_text(b, n)),
+    I::P(l, v) => format!("Main.p({l}, {})", strict_int(v, n)),
+    I::Call(f, args) => format!("Main.f{f}({})", args.iter().map(|a| strict_int(a, n)).collect::<Vec<_>>().join(", ")),
+    I::Loop(k, bound, acc) => format!("Main.loop{k}(0, {}, {})", strict_int(bound, n), strict_int(acc, n)),
+    I::Rec(k, count, a, b) => format!("Main.rec{k}((0 - {}), {}, {})", strict_int(count, n), strict_int(a, n), strict_int(b, n)),
     I::Twice(captured, arg, body) => {
       let c_text = int_text(captured, n);
       let id = n.fresh();
@@ -558,7 +701,7 @@ fn int_text(e: &I, n: &mut Names) -> String {
         format!("({} / {divisor})", int_text(a, n))
       }
     }
-    I::Mod(a, k) => format!("({} % {})", int_text(a, n), if *k < 0 { format!("(0 - {})", -k) } else { k.to_string() }),
+    I::Mod(a, k) => format!("({} % {})", strict_int(a, n), if *k < 0 { format!("(0 - {})", -k) } else { k.to_string() }),
     I::GuardedDiv(a, d) => {
       let d_text = int_text(d, n);
       let name = format!("d{}", n.fresh());
@@ -646,13 +789,13 @@ fn int_text(e: &I, n: &mut Names) -> String {
 fn bool_text(e: &B, n: &mut Names) -> String {
   match e {
     B::Lit(b) => b.to_string(),
-    B::Lt(a, b) => format!("({} < {})", int_text(a, n), int_text(b, n)),
-    B::Le(a, b) => format!("({} <= {})", int_text(a, n), int_text(b, n)),
+    B::Lt(a, b) => format!("({} < {})", strict_int(a, n), strict_int(b, n)),
+    B::Le(a, b) => format!("({} <= {})", strict_int(a, n), strict_int(b, n)),
     B::Eq(a, b) => format!("({} == {})", int_text(a, n), int_text(b, n)),
     B::Ne(a, b) => format!("({} != {})", int_text(a, n), int_text(b, n)),
-    B::And(a, b) => format!("({} && {})", bool_text(a, n), bool_text(b, n)),
-    B::Or(a, b) => format!("({} || {})", bool_text(a, n), bool_text(b, n)),
-    B::Not(a) => format!("!({})", bool_text(a, n)),
+    B::And(a, b) => format!("({} && {})", strict_bool(a, n), strict_bool(b, n)),
+    B::Or(a, b) => format!("({} || {})", strict_bool(a, n), strict_bool(b, n)),
+    B::Not(a) => format!("!({})", strict_bool(a, n)),
     B::PB(l, v) => format!("Main.pb({l}, {})", bool_text(v, n)),
     B::Blk(l, v) => format!("{{ let _ = Main.p({l}, 0); {} }}", bool_text(v, n)),
     B::StrEq(a, b) => format!("({} == {})", data_text(a, n), data_text(b, n)),
@@ -662,7 +805,7 @@ fn bool_text(e: &B, n: &mut Names) -> String {
 fn data_text(e: &D, n: &mut Names) -> String {
   match e {
     D::Var(v) => n.data[*v].clone(),
-    D::Pair(a, b) => format!("Pair.init({}, {})", int_text(a, n), int_text(b, n)),
+    D::Pair(a, b) => format!("Pair.init({}, {})", strict_int(a, n), strict_int(b, n)),
     D::Swap(d) => {
       let d_text = data_text(d, n);
       let name = format!("q{}", n.fresh());
@@ -670,17 +813,17 @@ fn data_text(e: &D, n: &mut Names) -> String {
     }
     D::Red => "Color.Red()".to_string(),
     D::Green => "Color.Green()".to_string(),
-    D::Rgb(a, b) => format!("Color.Rgb({}, {})", int_text(a, n), int_text(b, n)),
+    D::Rgb(a, b) => format!("Color.Rgb({}, {})", strict_int(a, n), strict_int(b, n)),
     D::NoneOf(t) => format!("Opt.None<{}>()", payload(*t).map(type_text).unwrap_or("int")),
     D::SomeI(a) => format!("Opt.Some({})", int_text(a, n)),
     D::SomeD(d) => format!("Opt.Some({})", data_text(d, n)),
     D::W(d) => format!("Wrap.W({})", data_text(d, n)),
     D::StrLit(k) => format!("\"{}\"", STRINGS[*k]),
-    D::FromInt(a) => format!("Str.fromInt({})", int_text(a, n)),
+    D::FromInt(a) => format!("Str.fromInt({})", strict_int(a, n)),
     D::Concat(a, b) => format!("({} :: {})", data_text(a, n), data_text(b, n)),
     D::If(c, t, f) => format!("(if {} {{ {} }} else {{ {} }})", bool_text(c, n), data_text(t, n), data_text(f, n)),
     D::Eff(l, d) => format!("{{ let _ = Main.p({l}, 0); {} }}", data_text(d, n)),
-    D::Mk(k, a, b) => format!("Main.mk{k}({}, {})", int_text(a, n), int_text(b, n)),
+    D::Mk(k, a, b) => format!("Main.mk{k}({}, {})", strict_int(a, n), strict_int(b, n)),
     D::LoopD(k, bound, acc) => format!("Main.dloop{k}(0, {}, {})", int_text(bound, n), data_text(acc, n)),
     D::Lam(captured, arg, body) => {
       let c_text = int_text(captured, n);
@@ -1301,4 +1444,90 @@ fn verif_witness_search_gen_optimizer() {
     }
   }
   println!("WITNESS-SEARCH: no violating history found ({n} optimized generated programs executed and compared with an interpreter of the fragment)");
+}
+
+/// Ok(()) if the two-module program (Demo = text, Lib) compiles, Err(the diagnostics) otherwise
+fn compile_with_lib(text: &str, third_module: Option<&str>) -> Result<(), String> {
+  let mut heap = Heap::new();
+  let entry = heap.alloc_module_reference_from_string_vec(vec!["Demo".to_string()]);
+  let lib = heap.alloc_module_reference_from_string_vec(vec!["Lib".to_string()]);
+  let mut sources = HashMap::from([(entry, text.to_string()), (lib, LIB_MODULE.to_string())]);
+  if let Some(third) = third_module {
+    sources.insert(heap.alloc_module_reference_from_string_vec(vec!["Ifaces".to_string()]), third.to_string());
+  }
+  for (m, s) in samlang_parser::builtin_std_raw_sources(&mut heap) {
+    sources.insert(m, s);
+  }
+  compile_sources(&mut heap, sources, vec![entry], false).map(|_| ())
+}
+
+#[test]
+fn verif_witness_search_gen_rejects() {
+  let seed = std::env::var("VERIF_SEED").ok().and_then(|s| s.parse::<u64>().ok()).unwrap_or(0);
+  let mut rng = Rng(0xD1B54A32D192ED03 ^ seed.wrapping_mul(0x2545F4914F6CDD1D));
+  let (n_programs, per_program) = (count_for_tier(6, 24), count_for_tier(60, 120));
+  let (mut programs_done, mut mutants) = (0, 0);
+  let mut kinds = std::collections::BTreeSet::new();
+  while programs_done < n_programs {
+    let p = generate(&mut rng, false);
+    if expected_output(&p).is_none() {
+      continue;
+    }
+    programs_done += 1;
+    let framed = |body: &str, imports: &str, declarations: &str| format!("{REJECTS_IMPORTS}{imports}{REJECTS_DECLARATIONS}{declarations}{body}");
+    let accepted = framed(&program_text(&p), "", "");
+    if let Err(e) = compile_with_lib(&accepted, None) {
+      println!("WITNESS-SEARCH-BROKEN: a generated program is rejected: {} -- {}", e.lines().take(8).collect::<Vec<_>>().join(" "), accepted.replace('\n', " "));
+      return;
+    }
+    let sites = count_sites(&p);
+    let mut candidates = Vec::new();
+    for _ in 0..per_program {
+      let (at, which) = (rng.below(sites as u64) as usize, rng.below(100_000) as usize);
+      let (text, what) = program_text_with_fault(&p, at, which);
+      candidates.push((framed(&text, "", ""), format!("{what}, fault site {at} of {sites}")));
+    }
+    // every declaration fault and import fault once per program
+    let plain = program_text(&p);
+    for (what, declaration) in DECL_FAULTS {
+      candidates.push((framed(&plain, "", &format!("{declaration}\n")), format!("{what}: `{declaration}`")));
+    }
+    for (what, import) in IMPORT_FAULTS {
+      candidates.push((framed(&plain, &format!("{import}\n"), ""), format!("{what}: `{}`", import.replace('\n', " "))));
+    }
+    if programs_done == 1 {
+      for (slug, what, declaration) in PINNED_DECL_FAULTS {
+        let text = framed(&plain, "", &format!("{declaration}\n"));
+        if compile_with_lib(&text, None).is_ok() {
+          println!("PINNED-FINDING: {slug}: a program with one fault is accepted and compiled ({what}: `{declaration}`)");
+        }
+      }
+    }
+    if programs_done == 1 {
+      mutants += 1;
+      match compile_with_lib(&accepted, Some(INTERFACE_ONLY_MODULE)) {
+        Err(e) if e.contains("Ifaces.sam") => {}
+        other => {
+          println!("WITNESS: a program with a module that only declares an interface naming an unknown class (`{}`) is not rejected with an error in that module: {:?}", INTERFACE_ONLY_MODULE.trim(), other.err().map(|e| e.lines().take(4).collect::<Vec<_>>().join(" ")));
+          return;
+        }
+      }
+    }
+    for (text, what) in candidates {
+      mutants += 1;
+      kinds.insert(what.split(':').next().unwrap_or("").to_string());
+      match compile_with_lib(&text, None) {
+        Err(e) if e.contains("Demo.sam") => {}
+        Err(e) => {
+          println!("WITNESS: a program with one fault ({what}) is rejected without an error in its own module: {} -- program: {}", e.lines().take(4).collect::<Vec<_>>().join(" "), text.replace('\n', " "));
+          return;
+        }
+        Ok(()) => {
+          println!("WITNESS: a program with one fault is accepted and compiled ({what}); program: {}", text.replace('\n', " "));
+          return;
+        }
+      }
+    }
+  }
+  println!("WITNESS-SEARCH: no violating history found ({mutants} single-fault mutants of {programs_done} generated two-module programs, {} kinds of fault, all rejected with an error in their own module)", kinds.len());
 }
